@@ -681,6 +681,27 @@ class SymReal:
     def __copy__(s):
         return s
 
+    # numpy hands back the element itself where float arrays give a numpy scalar (0-d array arithmetic, reductions of one
+    # element); the scalar methods the library then calls on it:
+    ndim = 0
+    size = 1
+    shape = ()
+
+    def min(s, *a, **k):
+        return s
+
+    def max(s, *a, **k):
+        return s
+
+    def sum(s, *a, **k):
+        return s
+
+    def item(s):
+        return s
+
+    def round(s, d=0):
+        return round_dp(s, d)
+
     def __float__(s):
         if s.is_const():
             return float(s.const_value())
